@@ -189,3 +189,8 @@ func vhSetAllocLimit(n int) {}
 
 // vhDebug: development aid (the engine prints a description of the value).
 func vhDebug(label string, v any) {}
+
+// vhRequire: a requirement the harness's own model of the code rests on. Under
+// the engine its failure is reported as broken machinery (exit 2), never as a
+// violation; natively it is a no-op.
+func vhRequire(c bool, label string) {}
